@@ -191,7 +191,8 @@ func (descriptor *BundleDescriptor) UpdateBundleAge() (uint64, error) {
 	}
 
 	age := ageBlock.Value.(*bpv7.BundleAgeBlock)
-	return age.Increment(uint64(time.Since(descriptor.Timestamp)) / 1000), nil
+	// The Bundle Age Block counts milliseconds.
+	return age.Increment(uint64(time.Since(descriptor.Timestamp) / time.Millisecond)), nil
 }
 
 func (descriptor BundleDescriptor) String() string {
